@@ -125,10 +125,59 @@ def logic_rewrites(root: pathlib.Path) -> int:
     return n
 
 
+def structure_rewrites(root: pathlib.Path) -> int:
+    """(1) `if c: <exits>` followed by more statements -> `if c: <exits> else: <the rest>`;
+       (2) `t = f(g(x), ...)` -> `_h = g(x); t = f(_h, ...)` when the first positional argument is itself a call (evaluation order kept).
+       (`x += e` -> `x = x + e` is NOT applied: it is not behaviour-preserving for aliased lists.)"""
+    n = 0
+    counter = [0]
+
+    def rewrite_block(stmts: list[ast.stmt]) -> list[ast.stmt]:
+        nonlocal n
+        out: list[ast.stmt] = []
+        i = 0
+        while i < len(stmts):
+            st = stmts[i]
+            for fld in ("body", "orelse", "finalbody"):
+                sub = getattr(st, fld, None)
+                if isinstance(sub, list) and sub and isinstance(sub[0], ast.stmt):
+                    setattr(st, fld, rewrite_block(sub))
+            if isinstance(st, ast.Try):
+                for h in st.handlers:
+                    h.body = rewrite_block(h.body)
+            if isinstance(st, ast.If) and not st.orelse and st.body and isinstance(st.body[-1], (ast.Return, ast.Continue, ast.Raise, ast.Break)) and i + 1 < len(stmts) \
+                    and not any(isinstance(x, (ast.FunctionDef, ast.ClassDef)) for x in stmts[i + 1:]):
+                st.orelse = rewrite_block(stmts[i + 1:])
+                out.append(st)
+                n += 1
+                return out
+            if isinstance(st, ast.Assign) and len(st.targets) == 1 and isinstance(st.targets[0], ast.Name) and isinstance(st.value, ast.Call) and st.value.args \
+                    and isinstance(st.value.args[0], ast.Call) and not isinstance(st.value.func, ast.Call) and not any(isinstance(x, (ast.NamedExpr, ast.Starred, ast.Lambda)) for x in ast.walk(st.value)) \
+                    and isinstance(st.value.func, ast.Name):
+                counter[0] += 1
+                tmp = f"_h{counter[0]}"
+                out.append(ast.copy_location(ast.Assign([ast.Name(tmp, ast.Store())], st.value.args[0]), st))
+                st.value.args[0] = ast.Name(tmp, ast.Load())
+                n += 1
+            out.append(st)
+            i += 1
+        return out
+
+    for p in root.rglob("*.py"):
+        t = ast.parse(p.read_text())
+        for node in ast.walk(t):
+            if isinstance(node, (ast.FunctionDef, ast.AsyncFunctionDef)):
+                node.body = rewrite_block(node.body)
+        out = ast.unparse(ast.fix_missing_locations(t))
+        compile(out, str(p), "exec")
+        p.write_text(out + "\n")
+    return n
+
+
 def main() -> int:
     props = sys.argv[1:] or [f"C{i:02d}" for i in range(1, 21)]
     worst = 0
-    for label, steps in (("unparse", [unparse_all]), ("rename", [rename_locals, rename_params]), ("logic", [logic_rewrites])):
+    for label, steps in (("unparse", [unparse_all]), ("rename", [rename_locals, rename_params]), ("logic", [logic_rewrites]), ("struct", [structure_rewrites])):
         tmp = pathlib.Path(tempfile.mkdtemp(prefix="verif_robust_"))
         try:
             subprocess.run(f"git -C {REPO} archive HEAD | tar -x -C {tmp}", shell=True, check=True)
